@@ -419,28 +419,33 @@ def collapsed (i : IIndex) (precedence : List Int) (mapping : Option (List (Int 
   let r ← fromArray { shape := [numrows], data := out.toList } {}
   pure r.1
 
-/-- `append(other)` -/
-def append (i other : IIndex) : M IIndex := do
+/-- `self[key] = shifted_rowids` or `numpy.append(self[key], shifted_rowids)` -/
+def addRows (es : List (Key × Rows)) (k : Key) (rows : Rows) : List (Key × Rows) :=
+  match dget es k with
+  | none => dset es k rows
+  | some old => dset es k (old ++ rows)
+
+/-- `new_rowids.astype(uint32) + uint32(old_numrows)` -/
+def shiftRows (oldN : Nat) (rows : Rows) : Rows := rows.map fun r => (r + oldN) % 2^32
+
+/-- the receiver of `append(other)` just before the final `shift_common()` -/
+def appendPre (i other : IIndex) : IIndex :=
   let oldN := i.nrows
-  let newN := oldN + other.nrows
-  let sh (rows : Rows) : Rows := rows.map fun r => (r + oldN) % 2^32
-  let addRows (es : List (Key × Rows)) (k : Key) (rows : Rows) : List (Key × Rows) :=
-    match dget es k with
-    | none => dset es k rows
-    | some old => dset es k (old ++ rows)
   let es := other.entries.foldl (fun es (e : Key × Rows) =>
-    if val0 e.1 != i.common then addRows es e.1 (sh e.2) else es) i.entries
+    if val0 e.1 != i.common then addRows es e.1 (shiftRows oldN e.2) else es) i.entries
   let es :=
     if other.common != i.common then
-      if i.ndim > 1 then
-        (List.range (i.shape.getD 1 0)).foldl (fun es (col : Nat) =>
-          let cr := sh (commonRowids other (some (col : Int)))
-          if cr.isEmpty then es else addRows es [other.common, (col : Int)] cr) es
-      else
-        let cr := sh (commonRowids other none)
-        if cr.isEmpty then es else addRows es [other.common] cr
+      -- rows holding other's common value, column by column (1-D: the single "column" `[]`)
+      (hiCells (i.shape.drop 1)).foldl (fun es hi =>
+        let cr := shiftRows oldN (commonRowidsHi other hi)
+        if cr.isEmpty then es else addRows es (other.common :: hi) cr) es
     else es
-  shiftCommon { entries := es, common := i.common, shape := newN :: i.shape.drop 1 } none
+  { entries := es, common := i.common, shape := (oldN + other.nrows) :: i.shape.drop 1 }
+
+/-- `append(other)` -/
+def append (i other : IIndex) : M IIndex :=
+  if i.ndim > 2 then throw (.scope "append on a 3-D index") else
+  shiftCommon (appendPre i other) none
 
 def liftK {α : Type} (x : Kern.M α) : M α :=
   match x with | .ok v => pure v | .error _ => throw (.indexError "kernel out-of-bounds access")
